@@ -38,6 +38,7 @@ func runC11(p *core.Prog, r *core.Report) {
 	// the target's login is not offered to the servers named in a layer's external URLs: the existence
 	// test on the target is made without them (shared with C03.R7)
 	c03R7(p, r, "C11.R11")
+	c11R12(p, r)
 }
 
 // c11R10: a host entry that is created on demand starts from the configured defaults. Starting it from
@@ -1000,5 +1001,67 @@ func c11R8(p *core.Prog, r *core.Report) {
 	}
 	if n == 0 {
 		r.Held(rule, "module", "no loose string match in the credential and host packages", "", "nothing to check")
+	}
+}
+
+// c11R12: request headers are logged only as a censored copy. In internal/reghttp every value of type
+// http.Header that is handed to a log call is, for all of its origins (looked at through the
+// package's helpers), the result of Header.Clone — the copy in which the Authorization field is
+// overwritten — never the Header field of the request itself.
+func c11R12(p *core.Prog, r *core.Report) {
+	const rule = "C11.R12"
+	r.Rule(rule, "logged request headers are the censored copy: in internal/reghttp an http.Header given to a slog attribute constructor originates, on every path, from Header.Clone (the copy whose Authorization field is overwritten), not from the request's Header field (a level test that skips the copy leaks the login at every level that still prints the entry)", 1)
+	fns := pkgFuncs(p, "internal/reghttp")
+	unit := map[*ssa.Function]bool{}
+	for _, f := range fns {
+		unit[f] = true
+	}
+	n := 0
+	lab := map[*ssa.Function]labeler{}
+	for _, fn := range fns {
+		core.Calls(fn, func(c ssa.CallInstruction) {
+			cal := core.Callee(c)
+			if cal == nil || cal.Pkg() == nil || cal.Pkg().Path() != "log/slog" {
+				return
+			}
+			for _, a := range c.Common().Args {
+				v := underIface(a)
+				if !core.IsNamed(v.Type(), "net/http", "Header") {
+					continue
+				}
+				n++
+				bad := ""
+				for _, o := range core.Origins(v, core.SliceOpts{Helpers: unit}) {
+					switch {
+					case o.Kind == core.OCall && o.Callee() != nil && o.Callee().Name() == "Clone":
+					case o.Kind == core.OField && o.Field == "Header":
+						// the request's field; a response's headers carry no login
+						isReq := true
+						if ld, ok := o.Val.(*ssa.UnOp); ok {
+							if fa, ok := ld.X.(*ssa.FieldAddr); ok && core.IsNamed(fa.X.Type(), "net/http", "Response") {
+								isReq = false
+							}
+						}
+						if fl, ok := o.Val.(*ssa.Field); ok && core.IsNamed(fl.X.Type(), "net/http", "Response") {
+							isReq = false
+						}
+						if isReq {
+							bad = "the Header field of the request"
+						}
+					case o.Kind == core.OField:
+						// a response's headers carry no login
+					default:
+					}
+				}
+				if lab[fn] == nil {
+					lab[fn] = labeler{}
+				}
+				r.Check(bad == "", rule, p.FuncName(fn), lab[fn].next("headers in a log entry"), p.Pos(c.Pos()),
+					"the headers logged can be "+bad+" (not the censored copy): the Authorization value (basic login or bearer token) is written to the log")
+			}
+		})
+	}
+	if n == 0 {
+		r.Held(rule, "internal/reghttp", "headers in a log entry", "", "no http.Header is handed to a log call")
 	}
 }
